@@ -59,13 +59,28 @@ func c17parse(s string) *c17val {
 		v.baseCap = cap(v.ss)
 	} else {
 		v.pp = make([][]byte, len(els), len(els)+extra)
-		for i, e := range els {
+		// all elements are windows of ONE backing array, each with its prescribed spare capacity reaching into the
+		// bytes of the next element: writing into an element's spare capacity would clobber its neighbour
+		type win struct{ off, n, x int }
+		var wins []win
+		var raw []byte
+		for _, e := range els {
 			p := strings.IndexByte(e, '+')
 			d := unhex(e[1:p])
 			x, _ := strconv.Atoi(e[p+1:])
-			b := make([]byte, len(d), len(d)+x)
-			copy(b, d)
-			v.pp[i] = b
+			wins = append(wins, win{len(raw), len(d), x})
+			raw = append(raw, d...)
+		}
+		maxx := 0
+		for _, w := range wins {
+			if w.x > maxx {
+				maxx = w.x
+			}
+		}
+		raw = append(raw, make([]byte, maxx)...)
+		raw = raw[:len(raw):len(raw)]
+		for i, w := range wins {
+			v.pp[i] = raw[w.off : w.off+w.n : w.off+w.n+w.x]
 		}
 		v.baseCap = cap(v.pp)
 	}
